@@ -29,6 +29,15 @@ class ExplodeColorLayerGlyphsFilter(BaseFilter):
             self.context.layerGlyphSets[layerName] = layer
         return layer
 
+    def _isFilteredLayer(self, font, layerName):
+        # Tell by name, not by comparing glyph objects: whether a copied glyph
+        # "equals" the layer's glyph depends on the UFO library (ufoLib2 compares
+        # by value, defcon by identity).
+        current = getattr(self.context.glyphSet, "name", None)
+        if current is None:
+            current = font.layers.defaultLayer.name
+        return layerName == current
+
     def _copyGlyph(self, layerGlyphSet, glyphSet, glyphName, layerName):
         layerGlyphName = f"{glyphName}.{layerName}"
         if layerGlyphName in glyphSet:
@@ -77,7 +86,8 @@ class ExplodeColorLayerGlyphsFilter(BaseFilter):
         for layerName, colorID in colorLayerMapping:
             layerGlyphSet = self._getLayer(font, layerName)
             if glyph.name in layerGlyphSet:
-                if glyph == layerGlyphSet[glyph.name]:
+                if self._isFilteredLayer(font, layerName):
+                    # the mapping refers to the very layer we are filtering
                     layerGlyphName = glyph.name
                 else:
                     layerGlyphName = self._copyGlyph(
